@@ -331,7 +331,12 @@ class FakeSnowflakeCursor:
                     self._conn.database_set = False
                     self._conn.schema_set = False
 
-                elif cmd == "DROP SCHEMA" and ident == self._conn.schema:
+                elif (
+                    cmd == "DROP SCHEMA"
+                    and ident == self._conn.schema
+                    # and not a schema with the same name in another database
+                    and (not (table := transformed.find(exp.Table)) or (table.catalog or self._conn.database) == self._conn.database)
+                ):
                     self._conn.schema = None
                     self._conn.schema_set = False
 
